@@ -95,6 +95,57 @@ def pair_kernel(lmax, off, base_shift=0):
     return k
 
 
+def teddy_kernel(fname, path, lmax, fplen, width, fat=False, base_shift=0):
+    """Slim Teddy kernels: f(masks *teddyMasks, haystack []byte) (pos int, bucketMask uint8).
+    teddyMasks: fingerprintLen uint32 @0, pad @4, loMasks [4][32]byte @8, hiMasks [4][32]byte @136.
+    All 264 table bytes are symbolic (the result holds for every mask table); width=32 kernels read
+    32-byte rows whose upper half duplicates the lower half (documented layout, assumed)."""
+    H, LEN = hay(lmax)
+    base = A.HAY_BASE + base_shift
+    T = [BitVec("m%d" % i, 8) for i in range(264)]
+    frame = {0: (bv(A.TAB_BASE, 64), 8), 8: (bv(base, 64), 8), 16: (LEN, 8), 24: (LEN, 8)}
+    regions = [A.Region("haystack", base, lmax, LEN, H), A.Region("masks", A.TAB_BASE, 264, bv(264, 64), T)]
+    assumptions = [ULE(LEN, bv(lmax, 64))]
+    if width == 32:
+        for p in range(4):
+            for j in range(16):
+                assumptions.append(T[8 + 32 * p + 16 + j] == T[8 + 32 * p + j])
+                assumptions.append(T[136 + 32 * p + 16 + j] == T[136 + 32 * p + j])
+
+    def lut(row_off, nib):
+        t = bv(0, 8)
+        for k in reversed(range(16)):
+            t = If(nib == bv(k, 4), T[row_off + k], t)
+        return t
+
+    def cand(i):
+        m = bv(0xFF, 8)
+        for p in range(fplen):
+            b = H[i + p]
+            m = m & lut(8 + 32 * p, Extract(3, 0, b)) & lut(136 + 32 * p, Extract(7, 4, b))
+        return m
+
+    def spec():
+        pos, mask = bv(-1, 64), bv(0, 8)
+        for i in reversed(range(lmax - fplen + 1)):
+            c = cand(i)
+            ok = And(ULE(bv(i + fplen, 64), LEN), c != bv(0, 8))
+            pos = If(ok, bv(i, 64), pos)
+            mask = If(ok, c, mask)
+        return {32: pos, 40: mask}
+    return dict(fname=fname, path=path, frame=frame, regions=regions, assumptions=assumptions, ret_slots={32: 8, 40: 1}, spec=spec, H=H, LEN=LEN)
+
+
+def teddy_kernels(lmax, base_shift=0):
+    P = os.path.join(REPO, "prefilter")
+    return [
+        teddy_kernel("teddySlimSSSE3_1", P + "/teddy_ssse3_amd64.s", lmax, 1, 16, base_shift=base_shift),
+        teddy_kernel("teddySlimSSSE3_2", P + "/teddy_ssse3_amd64.s", lmax, 2, 16, base_shift=base_shift),
+        teddy_kernel("teddySlimAVX2_1", P + "/teddy_slim_avx2_amd64.s", lmax, 1, 32, base_shift=base_shift),
+        teddy_kernel("teddySlimAVX2_2", P + "/teddy_slim_avx2_amd64.s", lmax, 2, 32, base_shift=base_shift),
+    ]
+
+
 def run_kernel(k, timeout_ms=120000):
     t0 = time.time()
     out = {"kernel": k.get("label", k["fname"]), "file": os.path.relpath(k["path"], REPO), "ok": False}
@@ -139,8 +190,13 @@ def main():
     ap.add_argument("--only")
     ap.add_argument("--json")
     ap.add_argument("--shift", type=int, default=0, help="byte offset of the haystack base (alignment)")
+    ap.add_argument("--set", default="simd", help="simd | teddy")
     args = ap.parse_args()
-    ks = kernels(args.lmax, args.shift) + [pair_kernel(args.lmax, 1, args.shift), pair_kernel(args.lmax, 2, args.shift)]
+    ap_set = args.set
+    if ap_set == "teddy":
+        ks = teddy_kernels(args.lmax, args.shift)
+    else:
+        ks = kernels(args.lmax, args.shift) + [pair_kernel(args.lmax, 1, args.shift), pair_kernel(args.lmax, 2, args.shift)]
     results = []
     for k in ks:
         if args.only and args.only not in k.get("label", k["fname"]):
